@@ -4,6 +4,16 @@ use erbium_net::raw::MsgFlags;
 
 pub mod lldppkt;
 
+/// Decodes the LLDPDU carried by an Ethernet frame.  A frame too short to hold the 14 octet
+/// Ethernet header is reported like any other undecodable frame.
+fn decode_frame(frame: &[u8]) -> Result<lldppkt::LldpPacket, crate::pktparser::ParseError> {
+    use crate::pktparser::Deserialise as _;
+    let payload = frame
+        .get(14..)
+        .ok_or(crate::pktparser::ParseError::UnexpectedEndOfInput)?;
+    lldppkt::LldpPacket::from_wire(&mut crate::pktparser::Buffer::new(payload))
+}
+
 pub struct LldpService {
     sock: erbium_net::raw::RawSocket,
 }
@@ -20,10 +30,7 @@ impl LldpService {
             match self.sock.recv_msg(1500, MsgFlags::empty()).await {
                 Err(err) => log::warn!("LLDP Failed to receive frame: {:?}", err),
                 Ok(msg) => {
-                    use crate::pktparser::Deserialise as _;
-                    match lldppkt::LldpPacket::from_wire(&mut crate::pktparser::Buffer::new(
-                        &msg.buffer[14..],
-                    )) {
+                    match decode_frame(&msg.buffer) {
                         Ok(new) => {
                             if prev.is_none() || prev.as_ref().unwrap() != &new {
                                 for i in &new.tlvs {
